@@ -30,7 +30,10 @@ depth and log, write group):
   branchs the branch stack with a config store whose save_changes() raises
   ftree   a real bzr working tree (DirState format) + branch + repository, all
           three control-files locks fakes: tree lock_read / lock_tree_write /
-          lock_write / unlock interleaved with branch and repository calls
+          lock_write / unlock interleaved with branch and repository calls; the
+          dirstate FILE lock is the fourth layer (model `DS`): with flag `d` a second
+          working-tree object holds a read lock on the same tree, so the dirstate
+          lock_write of a first tw / tt is refused after the control files were locked
   exhaustively up to a length bound, both with and without a pre-existing
   on-disk lock; for EVERY subset of layers whose physical lock refuses
   lock_read() exhaustively one step shorter; plus random sequences of length <= 40.
@@ -44,9 +47,13 @@ roll-backs of half-taken locks); a write request while a needed layer is
 read-locked -> ReadOnlyError; a read request needing a refusing physical lock ->
 LockContention, every other read request granted; unlock at balance 0 ->
 LockNotHeld; write-group calls succeed exactly under a write lock.
-A second, fake-free run drives a real working tree / branch / repository stack
-with real LockDirs and applies the same oracle to is_locked(), the lock counts
-and get_physical_lock_status().
+A second, fake-free run drives real working trees (formats 2a, pack-0.92, 1.9) /
+branch / repository with real LockDirs and applies the same oracle to is_locked(), the
+lock counts, get_physical_lock_status() of branch AND tree (.bzr/checkout/lock must be on
+disk exactly while the tree is write-locked) and the dirstate file lock; ops dp / du let a
+second tree object pin / release the dirstate file: a first lock_write / lock_tree_write
+must then fail with LockContention and leave no trace.  LockDir waits are switched off for
+that run and a tree whose lock leaked is replaced (a defect must not turn into a time-out).
 
 State of /repo (triaged): BzrBranch.unlock has the guard `if not
 control_files.is_locked(): return cant_unlock_not_held(self)` (fix 0445a91; the
@@ -63,16 +70,12 @@ the branch guard is lost again the unguarded model is tied, the correspondence
 stays clean and the oracle reports the over-unlock as a plain VIOLATION (no
 family) with the 2-step input [pr, bu].
 
-NEW, not yet triaged (the check exits 1 on /repo until the coordinator decides;
-repro scripts and tested patches in /var/tmp/imp-C28C29/c28):
-  repo-unlock-in-write-group-keeps-fallbacks-locked   [w, g, u] on repow:
-      PackRepository.unlock of the last write lock inside a write group raises
-      BzrError (discarded by only_raises) before the fallbacks are unlocked
-      (`repo_unlock_in_write_group_witness`)
-  branch-unlock-config-save-failure-keeps-lock        [bw, bu] on branchs:
-      BzrBranch.unlock calls conf_store.save_changes() before its try/finally;
-      a failure is discarded by only_raises and nothing is released
-      (`branch_unlock_save_failure_witness`)
+Fixed in /repo after this check reported them (model variants `fx = true` are the ones
+tied; if a family returns it is a plain VIOLATION, the probes then select `fx = false`):
+  [w, g, u] on repow   PackRepository.unlock of the last write lock inside a write group
+                       left the fallbacks locked (8dfd21d; `repo_unlock_in_write_group_witness`)
+  [bw, bu] on branchs  BzrBranch.unlock released nothing when conf_store.save_changes()
+                       raised (bcef285; `branch_unlock_save_failure_witness`)
 
 Mutants this was built against (scratch worktree with the guards / patches
 applied, so that the baseline is clean; all caught, "oracle" = concrete failing input):
@@ -101,6 +104,9 @@ applied, so that the baseline is clean; all caught, "oracle" = concrete failing 
   M19 LockableFiles.lock_read sets _lock_mode before the physical lock_read  oracle
   M20 CountedLock.lock_read sets _lock_count before the physical lock_read   oracle
   M22 DirStateWorkingTree.lock_tree_write takes branch.lock_write()          oracle
+  Seeded change C28b (DirStateWorkingTree._lock_self_write without the inner
+      `except: self._control_files.unlock(); raise`: control files stay locked when the
+      dirstate file lock is refused)                                         oracle, seeds 0..3
 Harmless (stay clean): reordered assignments in CountedLock.lock_read,
 `== 0` -> `not`, `> 1` -> `>= 2`, `bool()` in is_locked, restructured took_lock,
 DirStateWorkingTree.unlock with a local result variable.
@@ -127,6 +133,7 @@ THEOREMS = [
     "tree_refused_unchanged_partial", "tree_write_after_read_refused",
     "treeG_over_unlock_refused", "treeG_refused_unchanged", "treeG_physical_balanced",
     "tree_consistent_step", "tree_consistent_run", "tree_refused_unchanged_run",
+    "tree_dirstate_refused_rollback",
     "repow_no_group", "repo_unlock_in_write_group_witness", "repowF_unlock_in_write_group",
     "repowF_inv_step", "repowF_physical_balanced",
     "branchS_no_failure", "branchS_fixed_eq", "branch_unlock_save_failure_witness",
@@ -142,7 +149,8 @@ ASSUMPTIONS = [
     "the physical lock is the recording fake (LockDir token semantics; refuses lock_read only on request); "
     "real LockDirs are used in the fake-free working-tree stack run",
     "single thread; debug flag 'unlock' not set (cant_unlock_not_held raises)",
-    "the dirstate file lock and the cache flushing of the last tree unlock do not fail",
+    "the dirstate file's lock_read and the cache flushing of the last tree unlock do not fail; its lock_write "
+    "fails exactly while another tree object holds a read lock on it (flag `d` / ops dp, du)",
 ]
 TRUSTED = [
     "FakePhys / FakeFallback (harness) and their Lean counterpart Phys: recorded, never refusing unlock",
@@ -799,12 +807,8 @@ def classify(kind, op, bal, _unused=None):
     t, b = bal.get("t", 0), bal.get("b", 0)
     if kind in ("tree", "ftree") and op == "tu" and t == 0 and b > 0:
         return "tree-over-unlock-releases-branch"
-    # new (not yet triaged): the last unlock of a write-locked PackRepository while a write group
-    # is active; the last unlock of a branch whose config store fails to save
-    if kind == "repow" and op == "u" and bal.get("", 0) == 1 and getattr(_unused, "wg", False):
-        return WG_LEAK
-    if kind == "branchs" and op == "bu" and b == 1:
-        return SAVE_LEAK
+    # the two families found by this check (unlock inside a write group; unlock with a failing
+    # config save) are fixed in /repo (8dfd21d, bcef285): they get no family any more
     return None
 
 
@@ -1018,6 +1022,18 @@ def tree_variant(path):
 
 def tree_stack(ctx, n_seq, maxlen):
     """real working tree / branch / repository with real LockDirs; oracle only"""
+    from breezy import lockdir
+    # a lock leaked on disk by a defective tree must not make every later sequence wait 30 s
+    # for it: contended LockDirs fail at once
+    saved = lockdir._DEFAULT_TIMEOUT_SECONDS
+    lockdir._DEFAULT_TIMEOUT_SECONDS = 0
+    try:
+        return _tree_stack(ctx, n_seq, maxlen)
+    finally:
+        lockdir._DEFAULT_TIMEOUT_SECONDS = saved
+
+
+def _tree_stack(ctx, n_seq, maxlen):
     from breezy.workingtree import WorkingTree
     rng = ctx.rng
     # dp / du: a SECOND working-tree object on the same tree takes / gives back a read lock, which
@@ -1038,7 +1054,13 @@ def tree_stack(ctx, n_seq, maxlen):
         for _ in range(n_seq // len(TREE_FORMATS)):
             seqs.append([rng.choice(ops_all) for _ in range(rng.randint(3, maxlen))])
         for ops in seqs:
-            tree_sequence(ctx, path, ops, state, fmt=fmt)
+            if not tree_sequence(ctx, path, ops, state, fmt=fmt):
+                # the sequence left a lock on disk that could not be given back (only after a
+                # violation): go on with a fresh tree instead of waiting for that lock
+                base = env.make_tree(fmt)
+                base.commit("one")
+                path = base.basedir
+                ctx.count("tree:fresh-tree-after-leaked-lock")
     return path
 
 
@@ -1164,6 +1186,11 @@ def tree_sequence(ctx, path, ops, state=_tree_state, fmt="2a"):
                 pass
         ctx.case(case, nontrivial=nontrivial)
         ctx.count("tree:len=%d" % min(len(ops), 10))
+        try:
+            return not (wt._control_files.get_physical_lock_status() or wt.branch.get_physical_lock_status()
+                        or wt.is_locked() or wt.branch.is_locked() or dump_ds(wt) != "-")
+        except Exception:  # noqa
+            return False
 
 
 
